@@ -198,6 +198,8 @@ type FS struct {
 
 	StdioMode fs.FileMode // fs.ModeCharDevice (terminal, default), fs.ModeNamedPipe, or 0 (regular file)
 
+	removals []Removal
+
 	FailedWrites [][]byte // the buffers of file writes that an injected fault made fail (possibly after a short count)
 }
 
@@ -845,7 +847,31 @@ func Remove(name string) error {
 	n.nlink--
 	parent.mtime = now()
 	f.Ops["removed"]++
+	if !n.dir {
+		f.removals = append(f.removals, Removal{Path: p, Mtime: n.mtime, At: now(), ino: n})
+	}
 	return nil
+}
+
+// Removal records one unlinked regular file: its modification time when it went, when it
+// went, and what it held - including what holders of open descriptors wrote into it afterwards.
+type Removal struct {
+	Path  string
+	Mtime time.Time
+	At    time.Time
+	Data  []byte
+	ino   *inode
+}
+
+// Removals lists the regular files removed through Remove, in order.
+func (f *FS) Removals() []Removal {
+	f.mu.Lock()
+	defer f.mu.Unlock()
+	out := append([]Removal(nil), f.removals...)
+	for i := range out {
+		out[i].Data = append([]byte(nil), out[i].ino.data...)
+	}
+	return out
 }
 
 func RemoveAll(name string) error {
